@@ -65,6 +65,7 @@ type Config struct {
 	PanicIsViolation bool     // an uncaught Go panic on a feasible path is a violation
 	Inputs      map[string]uint64 // replay mode: fixed values for named inputs
 	NoMerge     bool
+	Fixed       map[string]uint64 // debugging: inputs pinned to constants while the rest stay symbolic
 	NoFallback  bool
 	FallbackMs  int
 	Deadline    time.Time
@@ -114,6 +115,7 @@ type Stats struct {
 	Merges        int
 	ModelHits     int
 	Fallbacks     int
+	PathWall      time.Duration
 	FallbackTime  time.Duration
 	MergeAborts   map[string]int
 }
@@ -153,6 +155,7 @@ func (s *Stats) Merge(o *Stats) {
 	s.Merges += o.Merges
 	s.ModelHits += o.ModelHits
 	s.Fallbacks += o.Fallbacks
+	s.PathWall += o.PathWall
 	s.FallbackTime += o.FallbackTime
 	for k, v := range o.MergeAborts {
 		s.MergeAborts[k] += v
@@ -185,9 +188,10 @@ type frame struct {
 	env       []Value
 	cur       ssa.Instruction
 	defers    []deferred
-	visits    map[int]int
+	visits    []int32
 	panicking *goPanic
 	region    int
+	regionHeads []*ssa.BasicBlock
 	recovered bool
 	results   Value
 }
@@ -223,6 +227,7 @@ type Exec struct {
 	ctx    *smt.Ctx
 	solver *smt.Solver
 	alt    *smt.Solver
+	alt2   *smt.Solver
 	cfg    *Config
 	stats  *Stats
 	world  *World
@@ -250,6 +255,7 @@ type Exec struct {
 	pendingEval *smt.Evaluator
 	pcLits   map[*smt.Term]int
 	ufApps   []ufApp
+	traces   []traceRec
 	eval     *smt.Evaluator // model satisfying the current path condition (nil: unknown)
 
 	// per worker
@@ -266,8 +272,10 @@ type Exec struct {
 	typeCells map[string]*Cell
 	uniq      map[string]Value
 	intr      map[string]intrinsic
+	nSamples  int
 	pdoms     map[*ssa.Function]*pdomInfo
 	regionOK  map[*ssa.BasicBlock]bool
+	joinOf    map[*ssa.BasicBlock]*ssa.BasicBlock
 	mergeFails map[*ssa.BasicBlock]int
 	mergeOKs  map[*ssa.BasicBlock]int
 }
@@ -294,15 +302,40 @@ func NewExec(w *World, cfg *Config) (*Exec, error) {
 	ex.intr = intrinsicTable()
 	ex.pdoms = map[*ssa.Function]*pdomInfo{}
 	ex.regionOK = map[*ssa.BasicBlock]bool{}
+	ex.joinOf = map[*ssa.BasicBlock]*ssa.BasicBlock{}
 	ex.mergeFails = map[*ssa.BasicBlock]int{}
 	ex.mergeOKs = map[*ssa.BasicBlock]int{}
 	return ex, nil
 }
 
+// ResetContext starts a fresh term table and solver processes (the hash-cons table only
+// grows; long explorations reset it between paths). Package-level state keeps its constant
+// terms, which are re-interned on use.
+func (ex *Exec) ResetContext() error {
+	ex.Close()
+	ex.ctx = smt.NewCtx()
+	tmo := ex.cfg.QueryMs
+	if tmo == 0 {
+		tmo = 10000
+	}
+	sol, err := smt.NewSolver("z3", ex.ctx, tmo)
+	if err != nil {
+		return err
+	}
+	ex.solver, ex.alt, ex.alt2 = sol, nil, nil
+	ex.byteTab = [256]*smt.Term{}
+	return nil
+}
+
+func (ex *Exec) NumTerms() int { return ex.ctx.NumTerms() }
+
 func (ex *Exec) Close() {
 	ex.solver.Close()
 	if ex.alt != nil {
 		ex.alt.Close()
+	}
+	if ex.alt2 != nil {
+		ex.alt2.Close()
 	}
 }
 func (ex *Exec) Stats() *Stats { return ex.stats }
@@ -331,11 +364,14 @@ func (ex *Exec) RunPath(fn *ssa.Function, trail []uint64) (alts [][]uint64) {
 	ex.eval = smt.NewEvaluator(map[*smt.Term]uint64{})
 	ex.pcLits = map[*smt.Term]int{}
 	ex.ufApps = nil
+	ex.traces = nil
 	ex.solver.Pop(ex.solver.Depth())
 	ex.stats.Paths++
 	q0, t0 := ex.solver.Queries, ex.solver.Time
+	wall0 := time.Now()
 
 	defer func() {
+		ex.stats.PathWall += time.Since(wall0)
 		ex.stats.Queries += ex.solver.Queries - q0
 		ex.stats.SolverTime += ex.solver.Time - t0
 		ex.rollback()
@@ -343,6 +379,17 @@ func (ex *Exec) RunPath(fn *ssa.Function, trail []uint64) (alts [][]uint64) {
 		r := recover()
 		if r == nil {
 			ex.stats.PathsDone++
+			if ex.cfg.Inputs != nil && len(ex.traces) > 0 {
+				m := map[string]interface{}{"harness": ex.harness}
+				for _, tr := range ex.traces {
+					if tr.t.IsConst() {
+						m["trace "+tr.name] = tr.t.Val
+					} else {
+						m["trace "+tr.name] = "symbolic"
+					}
+				}
+				ex.stats.Samples = append(ex.stats.Samples, m)
+			}
 			ex.sample()
 			return
 		}
@@ -374,7 +421,8 @@ func (ex *Exec) RunPath(fn *ssa.Function, trail []uint64) (alts [][]uint64) {
 				ex.stats.Unsupported["uncaught Go panic: "+ex.panicString(e)+" @ "+e.where]++
 			}
 		default:
-			panic(r)
+			// an internal error of the executor: report where, count the path as unsupported
+			ex.stats.Unsupported[fmt.Sprintf("executor error: %v @ %s", r, ex.where())]++
 		}
 	}()
 	ex.call(ex.funcValue(fn), nil)
@@ -382,9 +430,10 @@ func (ex *Exec) RunPath(fn *ssa.Function, trail []uint64) (alts [][]uint64) {
 }
 
 func (ex *Exec) sample() {
-	if len(ex.stats.Samples) >= 6 || len(ex.inputs) == 0 {
+	if ex.nSamples >= 2 || len(ex.inputs) == 0 {
 		return
 	}
+	ex.nSamples++
 	// one concrete model of this completed path
 	terms := make([]*smt.Term, len(ex.inputs))
 	for i, iv := range ex.inputs {
@@ -539,32 +588,43 @@ func (ex *Exec) fallback(t *smt.Term, want []*smt.Term) (smt.Result, []uint64) {
 	if ex.cfg.NoFallback {
 		return smt.Unknown, nil
 	}
-	if ex.alt == nil {
-		tmo := ex.cfg.FallbackMs
-		if tmo == 0 {
-			tmo = 30000
-		}
-		a, err := smt.NewSolver("cvc5-int", ex.ctx, tmo)
+	tmo := ex.cfg.FallbackMs
+	if tmo == 0 {
+		tmo = 30000
+	}
+	r, vals := ex.askOther(&ex.alt, "cvc5-int", tmo, t, want)
+	if r == smt.Unknown {
+		// last resort: a fresh z3 with a long limit (the primary's short limit is often hit only
+		// because the machine is busy)
+		r, vals = ex.askOther(&ex.alt2, "z3", 4*tmo, t, want)
+	}
+	return r, vals
+}
+
+func (ex *Exec) askOther(slot **smt.Solver, kind string, tmo int, t *smt.Term, want []*smt.Term) (smt.Result, []uint64) {
+	if *slot == nil {
+		a, err := smt.NewSolver(kind, ex.ctx, tmo)
 		if err != nil {
 			return smt.Unknown, nil
 		}
-		ex.alt = a
+		*slot = a
 	}
+	alt := *slot
 	ex.stats.Fallbacks++
-	ex.alt.Pop(ex.alt.Depth())
+	alt.Pop(alt.Depth())
 	for _, p := range ex.pc {
-		ex.alt.Push(p)
+		alt.Push(p)
 	}
-	q0, t0 := ex.alt.Queries, ex.alt.Time
+	q0, t0 := alt.Queries, alt.Time
 	defer func() {
-		ex.stats.Queries += ex.alt.Queries - q0
-		ex.stats.FallbackTime += ex.alt.Time - t0
+		ex.stats.Queries += alt.Queries - q0
+		ex.stats.FallbackTime += alt.Time - t0
 	}()
 	var extra []*smt.Term
 	if t != nil {
 		extra = []*smt.Term{t}
 	}
-	r, vals, err := ex.alt.CheckModel(extra, want)
+	r, vals, err := alt.CheckModel(extra, want)
 	if err != nil {
 		return smt.Unknown, nil
 	}
@@ -801,6 +861,10 @@ func (ex *Exec) recordViolation(kind, name, site, msg string) {
 		terms = append(terms, u.app)
 		terms = append(terms, u.args...)
 	}
+	nBase := len(terms)
+	for _, tr := range ex.traces {
+		terms = append(terms, tr.t)
+	}
 	res, vals, err := ex.solver.CheckModel(nil, terms)
 	if err == nil && res == smt.Unknown {
 		res, vals = ex.fallback(nil, terms)
@@ -815,6 +879,9 @@ func (ex *Exec) recordViolation(kind, name, site, msg string) {
 			argVals := vals[k+1 : k+1+len(u.args)]
 			v.Inputs[ufAppName(u.name, u.args, argVals)] = appVal
 			k += 1 + len(u.args)
+		}
+		for i, tr := range ex.traces {
+			v.Notes = append(v.Notes, fmt.Sprintf("trace %s = %d", tr.name, vals[nBase+i]))
 		}
 	} else {
 		v.Msg += fmt.Sprintf(" (model unavailable: %v %v)", res, err)
@@ -838,6 +905,15 @@ func (ex *Exec) input(name string, w int) *smt.Term {
 	}
 	ex.noGuard("new input")
 	var t *smt.Term
+	if fv, ok := ex.cfg.Fixed[name]; ok {
+		if w == 0 {
+			t = ex.ctx.Bool(fv != 0)
+		} else {
+			t = ex.ctx.BV(w, fv)
+		}
+		ex.inputSet[name] = t
+		return t
+	}
 	if ex.cfg.Inputs != nil {
 		v := ex.cfg.Inputs[name]
 		if w == 0 {
